@@ -159,12 +159,12 @@ func (c *channel) enqueue(req request, responseChan chan<- response, streaming b
 	select {
 	case <-c.parentCtx.Done():
 		vEmit("ClosedReply", c.node.ID(), req.msg.Metadata.MessageID)
-		c.routeResponse(req.msg.Metadata.MessageID, response{nid: c.node.ID(), err: fmt.Errorf("channel closed")})
+		c.routeOwnResponse(req.msg.Metadata.MessageID, response{nid: c.node.ID(), err: fmt.Errorf("channel closed")})
 		return
 	case <-req.ctx.Done():
 		vEmit("CtxReply", c.node.ID(), req.msg.Metadata.MessageID)
 		// the caller's context ended before the sender could take the request
-		c.routeResponse(req.msg.Metadata.MessageID, response{nid: c.node.ID(), err: req.ctx.Err()})
+		c.routeOwnResponse(req.msg.Metadata.MessageID, response{nid: c.node.ID(), err: req.ctx.Err()})
 		return
 	case c.sendQ <- req:
 		vEmit("HandOff", c.node.ID(), req.msg.Metadata.MessageID)
@@ -184,6 +184,27 @@ func (c *channel) drainSendQ() {
 			c.routeResponse(req.msg.Metadata.MessageID, response{nid: c.node.ID(), err: fmt.Errorf("channel closed")})
 		default:
 			return
+		}
+	}
+}
+
+// routeOwnResponse answers a request from the goroutine that is issuing the
+// call. That goroutine must never block here: the goroutine that reads the
+// reply channel of an asynchronous or correctable call is started only after
+// all requests have been enqueued, and the reply channel of a streaming call
+// may already be full (replies or repeated "stream is down" errors of nodes
+// enqueued earlier). The error is dropped in that case; a reply channel of a
+// non-streaming call always has room for one response per node.
+func (c *channel) routeOwnResponse(msgID uint64, resp response) {
+	c.responseMut.Lock()
+	defer c.responseMut.Unlock()
+	if router, ok := c.responseRouters[msgID]; ok {
+		select {
+		case router.c <- resp:
+		default:
+		}
+		if !router.streaming {
+			delete(c.responseRouters, msgID)
 		}
 	}
 }
